@@ -881,16 +881,27 @@ func parent(c *Check, tier string) int {
 		}
 		confirmed := strings.HasPrefix(cl, "crash") || strings.HasPrefix(cl, "hang") || strings.HasPrefix(cl, "harness:")
 		if !confirmed {
-			for try := 0; try < 3 && !confirmed; try++ {
-				r, _, _ := runSingle(c, tier, v.Idx, 3*caseTimeout)
-				if r != nil {
-					for _, rv := range r.Violations {
-						if rv.Class == cl {
-							confirmed = true
+			// up to 3 re-runs of the first case; if that one does not reproduce
+			// (a free-running case), the next distinct cases of the class get a try
+			cands := []int64{v.Idx, v.Idx, v.Idx}
+			for _, o := range vs[1:] {
+				if len(cands) >= 8 {
+					break
+				}
+				if o.Idx != cands[len(cands)-1] {
+					cands = append(cands, o.Idx)
+				}
+			}
+			for try := 0; try < len(cands) && !confirmed; try++ {
+				r, _, _ := runSingle(c, tier, cands[try], 3*caseTimeout)
+				if confirmedBy(r, cl) {
+					confirmed = true
+					for _, o := range vs {
+						if o.Idx == cands[try] {
+							v = o
+							break
 						}
 					}
-				} else {
-					confirmed = true // crashes count
 				}
 			}
 		}
@@ -1043,4 +1054,18 @@ func Product(radices []int) int64 {
 		p *= int64(r)
 	}
 	return p
+}
+
+// confirmedBy: does the isolated re-run r of a case show a violation of class
+// cl (a crash of the re-run counts as confirmation).
+func confirmedBy(r *Result, cl string) bool {
+	if r == nil {
+		return true
+	}
+	for _, rv := range r.Violations {
+		if rv.Class == cl {
+			return true
+		}
+	}
+	return false
 }
